@@ -43,6 +43,7 @@ type Exec struct {
 	hashes   []*hashEntry
 	inInit   int
 	lastPanic string
+	opqByKey map[string]*OpqStr
 	digested []*Blob
 	lastABI  map[string]string
 	recovers []*recovered
